@@ -154,8 +154,9 @@ def rand_fpair(rng, sr, sym, cplx, maxnd=3):
     kind = rng.choice(['int', 'int', 'tuple', 'str'])
     l1, l2 = rng.sample(range(1, 9), 2)
     mk = {'int': lambda v: v, 'tuple': lambda v: (v % 3, v), 'str': lambda v: 'ab'[v % 2] + chr(96 + v)}[kind]
-    a = gen.rand_array(rng, sr, sym, chargemaps=cma, duals=dua, cplx=cplx, fermionic=True, oddpos=mk(l1), lo=-2, hi=2)
-    b = gen.rand_array(rng, sr, sym, chargemaps=cmb, duals=dub, cplx=cplx, fermionic=True, oddpos=mk(l2), lo=-2, hi=2)
+    # (keep_label: even-parity operands are also GIVEN a label, as network builders do for every site; an even array holds none)
+    a = gen.rand_array(rng, sr, sym, chargemaps=cma, duals=dua, cplx=cplx, fermionic=True, oddpos=mk(l1), lo=-2, hi=2, keep_label=True)
+    b = gen.rand_array(rng, sr, sym, chargemaps=cmb, duals=dub, cplx=cplx, fermionic=True, oddpos=mk(l2), lo=-2, hi=2, keep_label=True)
     if not b.oddpos and rng.random() < 0.5:
         # an even operand that has already subsumed two odd tensors (two sorted labels)
         from symmray.fermionic_local_operators import FermionicOperator as FO
@@ -238,6 +239,12 @@ def run(ctx):
         exprs.append('farray_eqb %s (f_transpose %s %s %s true) %s' % (A, A, gen.gfarray(a, sym, ring), gen.gnatlist(perm), gen.gfarray(t, sym, ring)))
         meta.append(('transpose', sym, k))
         # ---- tensordot, both explicit modes + auto
+        for nm_, arr_ in (('a', a), ('b', b)):
+            ctx.count()
+            if len(arr_.oddpos) % 2 != refsym.par(sym, arr_.charge):
+                found.append({'op': 'construction', 'symmetry': sym, nm_: describe(arr_),
+                              'error': 'the number of odd-position labels held (%d) does not have the parity of the total charge %r' % (len(arr_.oddpos), arr_.charge),
+                              'replay': rl.record('tensordot', {'a': a_full, 'b': b_full}, {'symmetry': sym, 'mode': 'blockwise', 'axes': [axa, axb], 'perm': perm})})
         want, free, labels = ref_tensordot(sym, a, b, axa, axb)
         if a.size <= b.size:
             stats['a<=b'] += 1
